@@ -1192,7 +1192,26 @@ def _check_fix_case(ctx, ir, spec, out, origin):
         if not out.get("nodesPost"):
             ctx.disagree("C15_illscoped_nodes contradicted by the driver", case, out, None)
     # the hypotheses of the Lean theorems (evaluated by the driver) against their Python restatement
-    if raised is None and (out.get("scoped") and out.get("disjoint")) != scoped:
+    # The Python restatement `scoped` presupposes tops that share no graph / node (one object under two tops is a
+    # generator corner: e.g. a function-body node holding the main graph as an attribute).  Where the driver's TopDisj
+    # is false AND the tops of the spec do share an id, the restatement does not apply: counted, not compared.
+    def _ids(tr, acc):
+        acc.add(("g", tr["g"]))
+        for nd in tr["nodes"]:
+            acc.add(("n", nd["n"]))
+            for kind, sub in nd["attrs"]:
+                if kind == "g" and sub is not None:
+                    _ids(sub, acc)
+                elif kind == "gs":
+                    for s1 in sub or []:
+                        _ids(s1, acc)
+        return acc
+
+    _sets = [_ids(t, set()) for t in spec["tops"]]
+    py_disjoint = all(not (_sets[i] & _sets[j]) for i in range(len(_sets)) for j in range(i + 1, len(_sets)))
+    if raised is None and not out.get("disjoint") and not py_disjoint:
+        ctx.count("namefix_tops_not_disjoint_scoping_not_compared")
+    elif raised is None and (out.get("scoped") and out.get("disjoint")) != scoped:
         ctx.disagree("scoping rule: scopedB/disjoint (Lean) != Python restatement", case,
                      {"scoped": out.get("scoped"), "disjoint": out.get("disjoint")}, {"scoped": scoped})
     lean_owned = bool(out.get("wellOwned") and out.get("ownedDisjoint") and out.get("disjoint") and out.get("nodup"))
